@@ -330,10 +330,12 @@ where
         let mut left_cumulative = cdf.next().expect("cdf is not empty");
         let cdf = cdf.chain(core::iter::once(wrapping_pow2(PRECISION)));
 
-        let symbol_table = symbols
-            .into_iter()
-            .zip(cdf)
-            .map(|(symbol, right_cumulative)| {
+        let mut symbols = symbols.into_iter();
+        let mut num_symbols = 0usize;
+        let symbol_table = cdf
+            .zip(symbols.by_ref())
+            .map(|(right_cumulative, symbol)| {
+                num_symbols += 1;
                 let probability = right_cumulative
                     .wrapping_sub(&left_cumulative)
                     .into_nonzero()
@@ -343,7 +345,12 @@ where
                 (symbol, old_left_cumulative, probability)
             });
 
-        Ok(Self::from_symbol_table(symbol_table))
+        let model = Self::from_symbol_table(symbol_table);
+        if num_symbols != probabilities.len() || symbols.next().is_some() {
+            // The number of symbols doesn't match the number of probabilities.
+            return Err(());
+        }
+        Ok(model)
     }
 
     /// Deprecated constructor.
